@@ -27,7 +27,7 @@ from .layout import DecodeError, c_indices
 
 xo = seams.xo
 
-_W = dict(construct=22, set_leaf=8, set_compound=4, bind=6, copy=4, drop=3, raw=5, grow=10, misuse=0, restart=0, json=0, c_read=0, c_set=0, c_call=0)
+_W = dict(construct=22, set_leaf=8, set_compound=4, bind=6, copy=4, drop=3, raw=5, grow=10, misuse=0, restart=3, json=0, c_read=0, c_set=0, c_call=0)
 objsim.PROFILES.update(
     {
         "c_readers": dict(w=dict(_W, c_read=38)),
@@ -202,6 +202,12 @@ class CGenSource(GenSource):
                 p, t, n = rng.choice(leaves)
                 return o, at, p, t, n
         return None
+
+    def restart(self, w):
+        # (a context on which OpenMP kernels were built keeps cffi functions and cannot be pickled)
+        if any(c.get("omp") for c in w.spec["contexts"]):
+            return None
+        return super().restart(w)
 
     def c_read(self, w):
         got = self._pick_c_target(w, False)
@@ -491,7 +497,7 @@ class CApiSim(ObjSim):
         return super().run(prop, profile, rng=rng, replay=replay, tier=tier)
 
     def gen_world(self, rng, profile, tier):
-        spec = objsim.gen_world(rng, profile, tier)
+        spec = objsim.gen_world(rng, profile, tier, no_twins=True)
         omps = [rng.choice([0, 0, 0, 2, "auto"]) for _ in spec["contexts"]]
         for c, o in zip(spec["contexts"], omps):
             c["omp"] = o
